@@ -184,8 +184,47 @@ def oracle(p):
                             fail(f"C02:{nm}:{ext.strip('.')}:vs_itk", f"Grid.{nm} of a {ext} file disagrees with the image ITK reads back in: {', '.join(bad)}",
                                  header=h, ext=ext)
                     os.remove(path)
-            # GridAttrs: the direction may be given flat or as a matrix (ndarray, list of rows, tuple of rows)
+            # alternate constructors from a flat attribute sequence (size, spacing, origin | center, direction)
             import numpy as np
+            seq_o = [float(v) for v in h["size"]] + [float(v) for v in h["spacing"]] + [float(v) for v in h["origin"]] + flat(h["direction"])
+            seq_c = [float(v) for v in h["size"]] + [float(v) for v in h["spacing"]] + g.center().double().tolist() + flat(h["direction"])
+            for nm, gg in (("from_seq(origin=True)", Grid.from_seq(seq_o, origin=True, align_corners=ac)),
+                           ("from_numpy(ndarray, origin=True)", Grid.from_numpy(np.array(seq_o), origin=True, align_corners=ac)),
+                           ("from_numpy(list, origin=True)", Grid.from_numpy(seq_o, origin=True, align_corners=ac)),
+                           ("from_seq(center)", Grid.from_seq(seq_c, align_corners=ac)),
+                           ("from_numpy(center)", Grid.from_numpy(np.array(seq_c), align_corners=ac)),
+                           ("from_numpy(numpy())", Grid.from_numpy(g.numpy(), align_corners=ac))):
+                o_ = gg.index_to_world(torch.zeros(D, dtype=torch.float64), decimals=None).double()
+                if gg != g or not bool(torch.all((o_ - torch.tensor(h["origin"], dtype=torch.float64)).abs() <= 3e-5 * scale)):
+                    fail(f"C02:{nm.split('(')[0]}:{'origin' if 'origin' in nm else 'center'}-route", f"Grid.{nm} is not the grid of the header (index 0 not at the origin)",
+                         header=h, got_origin=o_.tolist())
+            # a grid whose STORED size is fractional (downsample of odd sizes): index <-> world must still be the ITK maps of
+            # the image with its size(), origin(), spacing(), direction()
+            if any(n % 2 == 1 for n in h["size"]) and all(n >= 4 for n in h["size"]):   # size/2 >= 2 on every axis (C03's range)
+                gf = g.downsample()
+                hf = {"size": [int(v) for v in gf.size()], "origin": gf.origin().double().tolist(), "spacing": gf.spacing().double().tolist(),
+                      "direction": gf.direction().double().tolist()}
+                imf = sitk_image(hf)
+                for _ in range(4):
+                    idx = [rng.uniform(-2, n + 2) for n in hf["size"]]
+                    wi = torch.tensor(imf.TransformContinuousIndexToPhysicalPoint(idx), dtype=torch.float64)
+                    w = gf.index_to_world(torch.tensor(idx, dtype=torch.float64), decimals=None).double()
+                    b = gf.world_to_index(wi, decimals=None).double()
+                    if not bool(torch.all((w - wi).abs() <= 1e-4 * scale)) or not bool(torch.all((b - torch.tensor(idx, dtype=torch.float64)).abs() <= 2e-3)):
+                        fail("C02:fractional-size:vs_itk", "grid with a fractional stored size (after downsample) disagrees with the ITK image of its own size/origin/spacing/direction",
+                             header=h, derived=hf, index=idx, world=w.tolist(), itk_world=wi.tolist(), back=b.tolist())
+            # GridAttrs.indices / points: sample (i, j, k) at ITK's position of (i, j, k)
+            ga_ = image_grid_attributes(img)
+            if max(h["size"]) <= 12:
+                pts = np.asarray(ga_.points)
+                ijk = [rng.randrange(n) for n in h["size"]]
+                want = np.asarray(img.TransformIndexToPhysicalPoint([int(v) for v in ijk]))
+                got = pts[tuple(reversed(ijk))]
+                ind = np.asarray(ga_.indices)[tuple(reversed(ijk))]
+                if not np.allclose(got, want, atol=1e-9 * scale) or [int(v) for v in ind] != [int(v) for v in ijk]:
+                    fail(f"C02:GridAttrs:points:D{D}", "GridAttrs.points / indices of sample (i, j, k) is not ITK's physical point of index (i, j, k)",
+                         header=h, index=ijk, got=got.tolist(), itk=want.tolist(), indices_entry=[int(v) for v in ind])
+            # GridAttrs: the direction may be given flat or as a matrix (ndarray, list of rows, tuple of rows)
             for form, dmat in (("flat", flat(h["direction"])), ("rows", [list(r) for r in h["direction"]]),
                                ("ndarray", np.array(h["direction"], dtype=float)), ("tuple-rows", tuple(tuple(r) for r in h["direction"]))):
                 gaf = GridAttrs(size=h["size"], origin=h["origin"], spacing=h["spacing"], direction=dmat)
